@@ -106,6 +106,22 @@ CopyTree(n, m) ==
        \/ /\ ~r.ok /\ cfgs' = cfgs
           /\ ev' = [op |-> "CopyTree", n |-> m, src |-> n, out |-> Outcome(r), errpath |-> r.err.path, repl |-> {}]
 
+\* read-only queries: asdict(cfg, virtual=True), the value every computed field shows and the
+\* result of calling every instance method.  (ConfigType.__eq__ is not modelled: it inherits
+\* DictProxy.__eq__, which deliberately makes typed dicts of different configurations unequal.)
+RECURSIVE Computed(_, _, _)
+Computed(Sx, c, path) ==
+    UNION {LET k == Sx.fields[i][1]  f == Sx.fields[i][2] IN
+           IF f.kind = "virtual" THEN {<<Append(path, k), VirtualOf(f, c)>>}
+           ELSE IF IsSchema(f) /\ IsCfg(c.vals[k]) THEN Computed(f, c.vals[k], Append(path, k))
+           ELSE {} : i \in DOMAIN Sx.fields}
+Query(n) ==
+    /\ Built(n)
+    /\ UNCHANGED cfgs
+    /\ ev' = [op |-> "Query", n |-> n, out |-> "ok", errpath |-> <<>>, repl |-> {},
+              asdict |-> AsDict(S, cfgs[n], TRUE),
+              computed |-> Computed(S, cfgs[n], <<>>)]
+
 \* cfg.validate(collect_errors=True): returns a list instead of raising
 CheckCollect(n) ==
     /\ Built(n)
@@ -126,6 +142,7 @@ Next ==
     \/ \E n \in Names, pk \in DOMAIN DictOps : \E o \in DictOps[pk] : Tick /\ COp(n, pk, o)
     \/ \E n \in Names : Tick /\ Check(n)
     \/ \E n \in Names : Tick /\ CheckCollect(n)
+    \/ \E n \in Names : Tick /\ Query(n)
     \/ \E n \in Names, m \in Names : Tick /\ CopyTree(n, m)
 
 Bound == TRUE
@@ -136,8 +153,11 @@ C01_AllValid == \A n \in Names : Built(n) => AllValid(S, cfgs[n])
 
 \* reading a field right after an accepted assignment yields the normalised value, and the
 \* assignment changes no other field
+\* (assigning to a computed field runs the application's setter, which by design writes
+\* another field: outside the "changes no other field" clause)
+OnComputed(e) == HasField(SchemaAt(S, e.p), e.k) /\ FieldOf(SchemaAt(S, e.p), e.k).kind = "virtual"
 A_Readback ==
-    (ev'.op \in {"SetAttr", "SetItem"} /\ ev'.out = "ok") =>
+    (ev'.op \in {"SetAttr", "SetItem"} /\ ev'.out = "ok" /\ ~OnComputed(ev')) =>
         LET n == ev'.n
             Sp == SchemaAt(S, ev'.p)
             before == CfgAt(cfgs[n], ev'.p)
@@ -170,7 +190,7 @@ C12_Fresh ==
 FreshOk(a, b) == TRUE
 \* the mark leaves exactly on an accepted assignment for that key; never on a rejected one
 A_Marks ==
-    (ev'.op \in {"SetAttr", "SetItem"}) =>
+    (ev'.op \in {"SetAttr", "SetItem"} /\ ~OnComputed(ev')) =>
         LET before == CfgAt(cfgs[ev'.n], ev'.p)
             after == CfgAt(cfgs'[ev'.n], ev'.p)
         IN  IF ev'.out = "ok" THEN after.dflt = before.dflt \ {ev'.k}
